@@ -71,8 +71,38 @@ func checkC01(c caseC01) (m model.Packet, frame []byte, sig, msg string) {
 	if !bytes.Equal(frame, frame2) {
 		return m, frame, "reencode", fmt.Sprintf("re-encoding differs:\n first %s\nsecond %s", hx(frame), hx(frame2))
 	}
+	if c.Forward > 0 {
+		// second generation: the decoded packet is changed through one public
+		// setter or adder, written and read again
+		want2 := want.Clone()
+		what := ""
+		if pan := guard.Call(func() { what = api.TweakOne(q, &want2, c.Forward) }); pan != nil {
+			return m, frame, "forward-panic", fmt.Sprintf("a setter on the decoded packet panicked: %v", pan.Value)
+		}
+		if what != "" {
+			want2 = expectAfterWire(want2)
+			if d := model.Diff(api.Observe(q), want2); d != "" && !onlyWireNormalised(d) {
+				return m, frame, "forward-accessor:" + what, fmt.Sprintf("after %s on the decoded packet its accessors differ from what was set (got vs want): %s", what, d)
+			}
+			frame3, _, err, pan := write(q)
+			if pan != nil || err != nil {
+				return m, frame, "forward-write", fmt.Sprintf("writing the decoded packet after %s failed: %v %v", what, err, pan)
+			}
+			q3, err, pan := read(frame3)
+			if pan != nil || err != nil || q3 == nil {
+				return m, frame, "forward-read", fmt.Sprintf("the decoded packet was changed with %s and written again; ReadPacket rejects that frame %s: %v %v", what, hx(frame3), err, pan)
+			}
+			if d := model.Diff(api.Observe(q3), want2); d != "" {
+				return m, frame, "forward-field:" + fieldOf(d), fmt.Sprintf("the decoded packet was changed with %s, written and read again: accessors differ from what was set (got vs want) %s\nfirst frame  %s\nsecond frame %s", what, d, hx(frame), hx(frame3))
+			}
+		}
+	}
 	return m, frame, "", ""
 }
+
+// onlyWireNormalised: differences that only exist between "as set" and "as
+// read back" (none so far); kept as the one place to list them.
+func onlyWireNormalised(d string) bool { return false }
 
 func fieldOf(diff string) string {
 	for i := 0; i < len(diff); i++ {
